@@ -125,7 +125,8 @@ PLAN = {
     'C01': {'extra': ['protocol_engine', 'threads_engine'],
             'mc': mcs('fub', 'fub_b1', 'fu', 'mb', 'mu', 'bu', 'ja', thorough=('fub_c3', 'fu4', 'mu3', 'mb3', 'bu4')) + [live('fub'), live('mu', NC=2)],
             'gen': gens('fub', 'fu', 'mb', 'mu', 'bu'),
-            'random': suite(COLL_KINDS + MERGE_KINDS, 200, 2000, 20, 200, profiles=('budget',)) + suite(ADAPT_KINDS + JOIN_KINDS, 150, 1500, 10, 100)},
+            'random': suite(COLL_KINDS + MERGE_KINDS, 200, 2000, 20, 200, profiles=('budget',)) + suite(ADAPT_KINDS + JOIN_KINDS, 150, 1500, 10, 100)
+                      + [rnd(k, 'real', 'burst', 9, 90) for k in ('ja', 'tja', 'mb', 'mu')]},
     'C02': {'mc': mcs('fub', 'fub_b1', 'fub_init', 'fob', 'fo', 'fu', thorough=('fub_c3', 'fu4', 'fob4c3')),
             'gen': gens('fub', 'fub_init', 'fu', 'fob', 'fo'),
             'random': suite(COLL_KINDS)},
@@ -141,10 +142,12 @@ PLAN = {
     'C06': {'mc': mcs('fub', 'fob', 'mb', 'bo', 'ja', 'tja', 'fub_panic', 'bo_panic', 'ja_panic', 'tja_panic',
                        thorough=('fub_c3', 'ja4', 'tja4', 'fu_panic', 'fob_panic', 'fo_panic', 'mb_panic', 'mu_panic', 'bu_panic', 'tbu_panic', 'tbo_panic', 'fe_panic')),
             'gen': gens('fub', 'fob', 'mb', 'bo', 'ja', 'tja', 'fub_panic', 'fu_panic', 'fe_panic', 'tja_panic'),
-            'random': suite(ALL_KINDS, 200, 2000, 10, 100) + [rnd(k, 'small', 'panic', 60, 600) for k in ALL_KINDS] + [rnd(k, 'small', 'dpanic', 60, 600) for k in ALL_KINDS]},
+            'random': suite(ALL_KINDS, 200, 2000, 10, 100) + [rnd(k, 'small', 'panic', 60, 600) for k in ALL_KINDS] + [rnd(k, 'small', 'dpanic', 60, 600) for k in ALL_KINDS]
+                      + [rnd(k, 'real', 'burst', 12, 120) for k in ('ja', 'tja', 'mb', 'mu')]},
     'C07': {'mc': mcs('ja', 'tja', 'ja_panic', 'tja_panic', thorough=('ja4', 'tja4', 'ja5')),
             'gen': gens('ja', 'tja', 'ja_panic', 'tja_panic'),
-            'random': suite(JOIN_KINDS, 600, 6000, 60, 600) + [rnd(k, 'small', 'panic', 200, 2000) for k in JOIN_KINDS] + [rnd(k, 'small', 'dpanic', 200, 2000) for k in JOIN_KINDS]},
+            'random': suite(JOIN_KINDS, 600, 6000, 60, 600) + [rnd(k, 'small', 'panic', 200, 2000) for k in JOIN_KINDS] + [rnd(k, 'small', 'dpanic', 200, 2000) for k in JOIN_KINDS]
+                      + [rnd(k, 'real', 'burst', 12, 120) for k in JOIN_KINDS]},
     'C08': {'mc': mcs('fub', 'fu', 'mu', thorough=('fu4', 'mu3')),
             'gen': gens('fub', 'fu', 'mu', 'bu', 'tja'),
             'random': suite(COLL_KINDS + MERGE_KINDS, 250, 2500, 30, 300) + [rnd(k, 'real', 'oscillate', 5, 150) for k in COLL_KINDS + MERGE_KINDS]
@@ -157,7 +160,7 @@ PLAN = {
             'random': suite(ADAPT_KINDS, 400, 4000, 40, 400) + [rnd('fe', 'small', 'limit0', 6, 30)]},
     'C11': {'mc': mcs('mb', 'mu', thorough=('mu3', 'mb3')),
             'gen': gens('mb', 'mu'),
-            'random': suite(MERGE_KINDS, 500, 5000, 60, 600, profiles=('budget',))},
+            'random': suite(MERGE_KINDS, 500, 5000, 60, 600, profiles=('budget',)) + [rnd(k, 'real', 'burst', 18, 180) for k in MERGE_KINDS]},
     'C12': {'mc': mcs('fub', 'fub_b1', 'fu', 'mb', 'mu', 'fub_panic', thorough=('fu_panic', 'mb_panic', 'fub_c3', 'fu4', 'mu3')),
             'gen': gens('fub', 'fu', 'mb', 'fub_panic', 'mb_panic'),
             'random': suite(COLL_KINDS + MERGE_KINDS, 250, 2500, 20, 200, profiles=('stale',))
@@ -168,6 +171,7 @@ PLAN = {
                       + [rnd(k, 'small', 'starve', 60, 600) for k in COLL_KINDS + MERGE_KINDS]
                       + [rnd(k, 'real', 'starve', 17, 170) for k in ('fub', 'mb', 'mu')] + [rnd(k, 'real', 'starve', 4, 170) for k in ('fu', 'fob', 'fo')]
                       + [rnd(k, 'small', 'starve', 40, 400) for k in JOIN_KINDS] + [rnd(k, 'real', 'starve', 6, 60) for k in JOIN_KINDS]
+                      + [rnd(k, 'real', 'burst', 9, 90) for k in ('ja', 'tja', 'mb', 'mu')]
                       + suite(ADAPT_KINDS + JOIN_KINDS, 80, 800, 6, 60)
                       + [rnd(k, 'small', 'churn', 30, 300) for k in ['fu', 'fo']]
                       + [rnd(k, 'real', 'manygroups', 8, 80) for k in ('fu', 'fo', 'mu')]},
